@@ -428,7 +428,7 @@ def build_datagram(q, qwire, kind, arg, marker, rng_bytes):
 UDP_KINDS = [
     "genuine", "genuine", "wrong_id", "not_response", "wrong_opcode", "wrong_qtype", "wrong_qclass", "wrong_qname",
     "qname_case", "garbage", "cut", "bitflip", "trailing", "rcode_noq", "rcode_noq_nx", "rcode_noq_ext", "tc_genuine", "tc_forged",
-    "tc_cut", "tc_trailing", "icmp", "empty", "forged_addr", "forged_port", "textual", "mcast_other", "extra_question", "dup_question", "noq_noerror", "forged_scope", "forged_flow",
+    "tc_cut", "tc_trailing", "icmp", "empty", "forged_addr", "forged_port", "textual", "mcast_other", "extra_question", "dup_question", "noq_noerror", "forged_scope", "forged_flow", "forged_garbage", "forged_tc", "forged_cut",
 ]
 
 
@@ -552,6 +552,13 @@ def _udp_materialise(case, q, qwire):
             variant, kind = "scope", "genuine"
         elif k == "forged_flow":
             variant, kind = "flow", "genuine"
+        elif k == "forged_garbage":
+            # two defects at once: from somebody else, and not parsable
+            variant, kind = "addr", "garbage"
+        elif k == "forged_tc":
+            variant, kind = "addr", "tc_genuine"
+        elif k == "forged_cut":
+            variant, kind = "port", "cut"
         junk = bytes(rng.randrange(256) for _ in range(64))
         payload = build_datagram(q, qwire, kind, d["arg"], i, junk)
         out.append((d["t"], payload, _src(case["dest"], case["port"], variant), k))
